@@ -469,5 +469,133 @@ theorem pe_blockingBegin (m : Nat) (a : Fw σ) (r : Runtime) (hr : a.rt[m]? = so
     (fun h => ⟨h, [], rfl, by simp, rfl⟩)
   exact main
 
+/-! ### the signal round starts with a Signal delivery -/
+
+def SigHead (c : List LogEntry) : Prop := c = [] ∨ ∃ e rest, c = e :: rest ∧ isSigTrans e = true
+
+theorem SigHead.append {c₁ c₂ : List LogEntry} (h₁ : SigHead c₁) (h₂ : SigHead c₂) : SigHead (c₁ ++ c₂) := by
+  rcases h₁ with rfl | ⟨e, rest, rfl, he⟩
+  · exact h₂
+  · exact Or.inr ⟨e, rest ++ c₂, rfl, he⟩
+
+/-- if `t` has no fault then `s` has none, and the segment added is empty or starts with a Signal
+    delivery -/
+def S (s t : Fw σ) : Prop :=
+  t.fault = none → s.fault = none ∧ ∃ c : List LogEntry, t.log = c.reverse ++ s.log ∧ SigHead c
+
+theorem S.refl (s : Fw σ) : S s s := fun h => ⟨h, [], rfl, Or.inl rfl⟩
+
+theorem S.trans {s t u : Fw σ} (h₁ : S s t) (h₂ : S t u) : S s u := by
+  intro hu
+  obtain ⟨ht, c2, e2, g2⟩ := h₂ hu
+  obtain ⟨hs, c1, e1, g1⟩ := h₁ ht
+  exact ⟨hs, c1 ++ c2, by rw [e2, e1, List.reverse_append, List.append_assoc], g1.append g2⟩
+
+theorem s_transition (j : Nat) (a : Fw σ) : S a (transition ρ FUEL j .signal a).1 := by
+  intro hok
+  refine ⟨reach_fault_mono (transition_reach ρ FUEL j .signal a) hok, ?_⟩
+  cases hr : a.rt[j]? with
+  | none => exact absurd hok (transition_oob ρ j .signal a (Or.inl hr))
+  | some r =>
+  cases hm : a.machines[j]? with
+  | none => exact absurd hok (transition_oob ρ j .signal a (Or.inr hm))
+  | some mm =>
+    obtain ⟨l, hl⟩ := Countdown.transition_logFirst ρ 7 j .signal a r mm hr hm
+    refine ⟨.trans j Event.signal.toNat r.currentState :: l.reverse, ?_, Or.inr ⟨_, _, rfl, rfl⟩⟩
+    show (transition ρ (7 + 1) j .signal a).1.log = _
+    rw [hl]; simp [Fw.push]
+
+theorem s_signalRound (s : Fw σ) : S s (signalRound ρ s) := by
+  have hfold : ∀ (excluded : Option Nat) (n : Nat) (a : Fw σ),
+      S a ((List.range n).foldl (fun s j =>
+        if (excluded == some j) = true then s else (transition ρ FUEL j .signal s).1) a) := by
+    intro excluded n a
+    generalize List.range n = l
+    induction l generalizing a with
+    | nil => exact S.refl a
+    | cons j l ih =>
+      simp only [List.foldl_cons]
+      refine S.trans ?_ (ih _)
+      split
+      · exact S.refl a
+      · exact s_transition ρ j a
+  have hsame : ∀ (a : Fw σ) (p : Option SignalTarget), S a { a with signalPending := p } :=
+    fun a p h => ⟨h, [], rfl, Or.inl rfl⟩
+  unfold signalRound
+  cases hsig : s.signalPending with
+  | none => exact S.refl s
+  | some sig =>
+    cases sig with
+    | all =>
+      simp only []
+      have h3 := (hsame s none).trans (hfold none s.rt.length { s with signalPending := none })
+      generalize ((List.range s.rt.length).foldl (fun s j =>
+          if ((none : Option Nat) == some j) = true then s else (transition ρ FUEL j .signal s).1)
+          ({ s with signalPending := none } : Fw σ)) = s2 at h3 ⊢
+      cases hs2 : s2.signalPending with
+      | none => exact h3
+      | some _ => exact h3.trans (hsame s2 none)
+    | allExcept x =>
+      simp only []
+      have h3 := (hsame s none).trans (hfold (some x) s.rt.length { s with signalPending := none })
+      generalize ((List.range s.rt.length).foldl (fun s j =>
+          if (some x == some j) = true then s else (transition ρ FUEL j .signal s).1)
+          ({ s with signalPending := none } : Fw σ)) = s2 at h3 ⊢
+      cases hs2 : s2.signalPending with
+      | none => exact h3
+      | some _ =>
+        simp only []
+        exact (h3.trans (hsame s2 none)).trans (s_transition ρ x _)
+
+/-! ### the rules of the monitor, per call -/
+
+/-- **Single-completion rule.** In a single-event call reporting a completion for machine `m`
+    (which has a runtime and has not ended), the pre-signal part of the call's log either holds no
+    decrement of `m` and a change of `m`'s state, or exactly one decrement of `m` and no change of
+    `m`'s state before it. -/
+theorem ruleC_call (m : Nat) (e : TEvent) (he : e = .paddingSent m ∨ e = .blockingBegin m ∨ e = .timerBegin m)
+    (t : Int) (s : Fw σ) (r : Runtime) (hr : s.rt[m]? = some r) (hne : r.currentState ≠ STATE_END)
+    (hok : (triggerEvents ρ [e] t s).fault = none)
+    (l : List LogEntry) (hl : (triggerEvents ρ [e] t s).log = l ++ s.log) :
+    RuleC m r.currentState (C07.beforeSignals l.reverse) := by
+  have hcs : (s.callStart t).rt[m]? = some { r with zeroedA := false, zeroedB := false } :=
+    Countdown.callStart_rt s t m r hr
+  have hE : EvSeg m r.currentState (s.callStart t) (processEvent ρ e (s.callStart t)) := by
+    rcases he with rfl | rfl | rfl
+    · exact pe_paddingSent ρ m (s.callStart t) { r with zeroedA := false, zeroedB := false } hcs hne
+    · exact pe_blockingBegin ρ m (s.callStart t) { r with zeroedA := false, zeroedB := false } hcs hne
+    · exact pe_timerBegin ρ m (s.callStart t) { r with zeroedA := false, zeroedB := false } hcs hne
+  have hT : triggerEvents ρ [e] t s = signalRound ρ (processEvent ρ e (s.callStart t)) := rfl
+  rw [hT] at hok hl
+  obtain ⟨hpf, c2, hl2, hh2⟩ := s_signalRound ρ _ hok
+  obtain ⟨_, c1, hl1, hc1, hs1⟩ := hE hpf
+  have hlog : (s.callStart t).log = s.log := rfl
+  have : l = (c1 ++ c2).reverse := by
+    apply List.append_cancel_right (bs := s.log)
+    rw [← hl, hl2, hl1, hlog, List.reverse_append, List.append_assoc]
+  subst this
+  rw [List.reverse_reverse, beforeSignals_append c1 c2 hs1 hh2]
+  exact hc1
+
+/-- **Own completions only**, per call, in the monitor's vocabulary -/
+theorem decrements_le_call (j : Nat) (es : List TEvent) (t : Int) (s : Fw σ)
+    (l : List LogEntry) (hl : (triggerEvents ρ es t s).log = l ++ s.log) :
+    C07.decrements j l.reverse ≤ C07.completions j es := by
+  have h := Countdown.dec_triggerEvents ρ j es t s
+  unfold Countdown.decOf at h
+  rw [hl, Countdown.wsum_append, Countdown.wsum_μDec] at h
+  have h1 : C07.decrements j l.reverse = l.countP (Countdown.isDecrementOf j) := by
+    unfold C07.decrements
+    rw [List.countP_reverse]
+    congr 1
+    funext e
+    cases e with
+    | limit mm v d => cases d <;> simp [Countdown.isDecrementOf]
+    | _ => rfl
+  have h2 : C07.completions j es = es.countP (Countdown.TEvent.completes j) := by
+    unfold C07.completions
+    congr 1
+  omega
+
 end LL
 end Mb
